@@ -225,6 +225,9 @@ func c13Fidelity(v *spec.V) (msg, sig string) {
 	if m := spec.Match(s.c, v); m != "" {
 		return fmt.Sprintf("container built from native %s differs: %s", v, m), "native/from"
 	}
+	if got := renderNative(s.src); got != renderNative(v.Native()) {
+		return fmt.Sprintf("building a container from the native value %s modified that value: %s", renderNative(v.Native()), got), "native/source-modified"
+	}
 	want := renderNative(v.Native())
 	if hasContainer(s.deep) {
 		return fmt.Sprintf("Native export of %s still contains an anytype container or a non-plain value: %s", v, renderNative(s.deep)), "native/container-inside"
@@ -488,6 +491,7 @@ func c13Flavours(c *ev.Ctx) {
 }
 
 func runC13(c *ev.Ctx) {
+	defer sizeSweep(c, "C13")
 	nodes1, nodes2 := 5, 4
 	if c.Thorough() {
 		nodes1, nodes2 = 6, 5
